@@ -553,10 +553,20 @@ def run_runtime(cx: Ctx, spec, rng):
     L = cx.L
     regs = []
     base = 91000000
-    for i, kind in enumerate(G.SCALAR_KINDS + ["grouped"]):
+    from diameter.message.avp import Avp
+    kinds = G.SCALAR_KINDS + ["grouped"]
+    for i, kind in enumerate(kinds):
         cls = L.CLASS_OF_KIND[kind]
         for vendor, mand in ((None, True), (9999990 + i, False), (10415, None)):
             code = base + i * 10 + (0 if vendor is None else (1 if vendor != 10415 else 2))
+            # the definition is looked up once BEFORE it exists (an AVP of that code is received as unknown): what
+            # is registered afterwards must be seen all the same
+            try:
+                a = Avp.from_bytes(R.enc_avp(code, b"\x00\x00\x00\x01", vendor or 0, 0))
+                if type(a) is not Avp:
+                    cx.witness("register.known_before_registration", {"code": code, "vendor": vendor})
+            except Exception as e:
+                cx.witness(f"register.lookup_before_raises.{type(e).__name__}", {"code": code, "vendor": vendor})
             avp_mod.register(avp=code, name=f"Verif-{kind}-{vendor}", type_cls=cls, vendor=vendor,
                              mandatory=mand)
             regs.append((code, vendor or 0, kind, mand))
@@ -572,6 +582,20 @@ def run_runtime(cx: Ctx, spec, rng):
         for v in G.boundary_values(kind)[:12] + [G.random_value(kind, rng) for _ in range(4)]:
             check_default_m(cx, code, vendor, kind, v, bool(mand))
             check_value(cx, "registered", kind, code, vendor, v, rng.random() < 0.5, rng.random() < 0.5,
+                        via_new=True)
+    # a definition that has been used is registered again with another type: the new one counts from now on
+    scalar = [r for r in regs if r[2] != "grouped"]
+    for j, (code, vendor, kind, mand) in enumerate(scalar):
+        new_kind = G.SCALAR_KINDS[(G.SCALAR_KINDS.index(kind) + 1 + j % 3) % len(G.SCALAR_KINDS)]
+        avp_mod.register(avp=code, name=f"Verif-again-{new_kind}-{vendor}", type_cls=L.CLASS_OF_KIND[new_kind],
+                         vendor=vendor or None, mandatory=mand)
+        ent = L.dict_lookup(code, vendor)
+        if ent is None or ent["type"] is not L.CLASS_OF_KIND[new_kind]:
+            cx.witness("register.overwrite_not_visible", {"code": code, "vendor": vendor})
+            continue
+        cx.matrix["definitions_registered_again"] = cx.matrix.get("definitions_registered_again", 0) + 1
+        for v in G.boundary_values(new_kind)[:6] + [G.random_value(new_kind, rng) for _ in range(2)]:
+            check_value(cx, "registered", new_kind, code, vendor, v, rng.random() < 0.5, rng.random() < 0.5,
                         via_new=True)
 
 
